@@ -1,15 +1,18 @@
 import TextxVerif.Wire
 import TextxVerif.Link.PlainName
+import TextxVerif.Link.Store
 import TextxVerif.Link.Fqn
 /-! Driver for default (PlainName) and FQN reference resolution (C07, C10).
 
 Object: {"id":n,"cls":c,"name":s|null,"attrs":[{"c":[Object…]} | {"r":[id…]} | {"p":0}]}
 ops:
   {"op":"resolve_default","root":Object,"conf":[[objCls,targetCls]…],
-   "builtins":[[name,id,cls]…],"refs":[[name,targetCls,owner,attr]…],
+   "builtins":[[name,id,cls]…],"refs":[[name,targetCls,owner,attr,single(0|1)]…],
    "probes":[[name,targetCls]…]}
      → {"res":{"ok":[T…]} | {"fail":"unknown"|"notUnique","idx":i},
         "attrs":[[owner,attr,[T…]]…]  (only when ok; one entry per distinct owner/attr, in first-use order),
+        "stored":[[owner,attr,[pyid…] | null]…]  (only when the pass *with its stores* `resolveAllSt (storeRef …)`
+                  succeeds: the reference attributes read from the final tree, same keys) | "st_fail":{…},
         "probes":[id | "many" | null …]}          T = {"obj":id} | {"builtin":id}
   {"op":"resolve_fqn","root":Object,"conf":[[objCls,targetCls]…],"probes":[[cur,"a.b.c",targetCls]…]}
      → {"probes":[id | null | "no-such-object" …]}
@@ -50,14 +53,15 @@ def parseBuiltins (a : Array Json) : Option (List (String × Builtin)) :=
     let c ← asNat? (← xs[2]?)
     if xs.size = 3 then pure (n, { id := i, cls := c }) else none
 
-def parseRefs (a : Array Json) : Option (List Ref) :=
+def parseRefs (a : Array Json) : Option (List (Ref × Bool)) :=
   a.toList.mapM fun e => do
     let xs ← asArr? e
     let n ← asStr? (← xs[0]?)
     let t ← asNat? (← xs[1]?)
     let o ← asNat? (← xs[2]?)
     let ai ← asNat? (← xs[3]?)
-    if xs.size = 4 then pure { name := n, tcls := t, owner := o, attr := ai } else none
+    let sg ← asNat? (← xs[4]?)
+    if xs.size = 5 ∧ sg ≤ 1 then pure ({ name := n, tcls := t, owner := o, attr := ai }, sg == 1) else none
 
 def parseNameProbes (a : Array Json) : Option (List (String × Nat)) :=
   a.toList.mapM fun e => do
@@ -86,8 +90,24 @@ def handleDefault (j : Json) : Json :=
   match (getObj? j "root").bind parseObj, (getArr? j "conf").bind parsePairs,
         (getArr? j "builtins").bind parseBuiltins, (getArr? j "refs").bind parseRefs,
         (getArr? j "probes").bind parseNameProbes with
-  | some root, some tbl, some bs, some refs, some probes =>
+  | some root, some tbl, some bs, some refsS, some probes =>
     let conf := confOf tbl
+    let refs := refsS.map (·.1)
+    -- single-valuedness is a property of the attribute (owner, attr)
+    let singles : List (Nat × Nat) := (refsS.filter (·.2)).map fun p => (p.1.owner, p.1.attr)
+    let single : Ref → Bool := fun r => singles.contains (r.owner, r.attr)
+    let keys := dedupKeys (refs.map fun r => (r.owner, r.attr)) []
+    -- the pass as it runs: every resolved target is stored before the next lookup
+    let stOut : List (String × Json) :=
+      match resolveAllSt (storeRef single) conf root bs refs with
+      | .ok (_, root') =>
+        [("stored", Json.arr (keys.map fun (o, a) =>
+            Json.arr #[toJson o, toJson a,
+              match readObj o a root' with
+              | some ids => toJson ids
+              | none => Json.null]).toArray)]
+      | .error (.unknown i) => [("st_fail", Json.mkObj [("fail", "unknown"), ("idx", toJson i)])]
+      | .error (.notUnique i) => [("st_fail", Json.mkObj [("fail", "notUnique"), ("idx", toJson i)])]
     let probeOut : List Json := probes.map fun (n, t) =>
       match plainName conf root n t with
       | .one o => toJson o.id
@@ -95,15 +115,14 @@ def handleDefault (j : Json) : Json :=
       | .none => Json.null
     match resolveAll conf root bs refs with
     | .ok res =>
-      let keys := dedupKeys (refs.map fun r => (r.owner, r.attr)) []
       let attrs : List Json := keys.map fun (o, a) =>
         Json.arr #[toJson o, toJson a, Json.arr ((attrValue res o a).map targetJson).toArray]
-      Json.mkObj [("res", Json.mkObj [("ok", Json.arr (res.map (fun p => targetJson p.2)).toArray)]),
-                  ("attrs", Json.arr attrs.toArray), ("probes", Json.arr probeOut.toArray)]
+      Json.mkObj ([("res", Json.mkObj [("ok", Json.arr (res.map (fun p => targetJson p.2)).toArray)]),
+                  ("attrs", Json.arr attrs.toArray), ("probes", Json.arr probeOut.toArray)] ++ stOut)
     | .error (.unknown i) =>
-      Json.mkObj [("res", Json.mkObj [("fail", "unknown"), ("idx", toJson i)]), ("probes", Json.arr probeOut.toArray)]
+      Json.mkObj ([("res", Json.mkObj [("fail", "unknown"), ("idx", toJson i)]), ("probes", Json.arr probeOut.toArray)] ++ stOut)
     | .error (.notUnique i) =>
-      Json.mkObj [("res", Json.mkObj [("fail", "notUnique"), ("idx", toJson i)]), ("probes", Json.arr probeOut.toArray)]
+      Json.mkObj ([("res", Json.mkObj [("fail", "notUnique"), ("idx", toJson i)]), ("probes", Json.arr probeOut.toArray)] ++ stOut)
   | _, _, _, _, _ => badOp
 
 def handleFqn (j : Json) : Json :=
